@@ -20,16 +20,20 @@ def new_ro(nx=2, ny=1, mat=False):
     return m, x, y, X
 
 
-def sym_array(c, shape, name):
-    size = int(np.prod(shape))
-    vals = [c.fresh_real(f"{name}{i}") for i in range(size)]
-    if any(not isinstance(v, float) for v in vals):
-        out = np.empty(size, dtype=object)
+def arr(vals):
+    """1-D array of the given scalars: float dtype when all are concrete, else object."""
+    vals = list(vals)
+    if any(not isinstance(v, (float, int, np.floating, np.integer)) for v in vals):
+        out = np.empty(len(vals), dtype=object)
         for i, v in enumerate(vals):
             out[i] = v
-    else:
-        out = np.array(vals, dtype=float)
-    return out.reshape(shape)
+        return out
+    return np.array(vals, dtype=float)
+
+
+def sym_array(c, shape, name):
+    size = int(np.prod(shape))
+    return arr([c.fresh_real(f"{name}{i}") for i in range(size)]).reshape(shape)
 
 
 def sym_affine(c, model, shape, cols, name, const=True):
@@ -43,12 +47,7 @@ def sym_affine(c, model, shape, cols, name, const=True):
             data.append(c.fresh_real(f"{name}_a{i}_{j}_"))
             rows.append(i)
             cs.append(j)
-    if any(not isinstance(v, float) for v in data):
-        d = np.empty(len(data), dtype=object)
-        for i, v in enumerate(data):
-            d[i] = v
-    else:
-        d = np.array(data, dtype=float)
+    d = arr(data)
     linear = lp.csr_matrix((d, (rows, cs)), shape=(size, ncol))
     if const:
         k = sym_array(c, shape, f"{name}_c")
@@ -59,11 +58,7 @@ def sym_affine(c, model, shape, cols, name, const=True):
 
 def valuation(c, model, name="x"):
     n = model.last
-    vals = [c.fresh_real(f"{name}{i}_") for i in range(n)]
-    out = np.empty(n, dtype=object)
-    for i, v in enumerate(vals):
-        out[i] = v
-    return out
+    return arr([c.fresh_real(f"{name}{i}_") for i in range(n)])
 
 
 def snapshot_affine(a):
